@@ -281,6 +281,9 @@ Definition u8_hasht : hasht Z :=
 (* write_i32(x) ; hash_slice = one write of 4*len bytes *)
 Definition i32_hasht : hasht Z :=
   Hasht (fun x => [TCall 9 (le_bytes 4 x)]) (fun l => [TCall 0 (flat_map (le_bytes 4) l)]).
+(* write_i8(x) ; hash_slice = one write of the bytes (two's complement) *)
+Definition i8_hasht : hasht Z :=
+  Hasht (fun x => [TCall 7 (le_bytes 1 x)]) (fun l => [TCall 0 (flat_map (le_bytes 1) l)]).
 
 (* f64: FNan, or a number given by a comparison key; -0.0 and +0.0 both have key 0
    but stay different values (the flag).  IEEE: NaN is unordered with everything,
